@@ -92,6 +92,55 @@ Proof.
   exact (callee_saved_preserved (f_pushes r) (f_pops r) (f_written r) rg0 rg1 stack H2 H3 H4 Hb x).
 Qed.
 
+(* ---- the Windows-GNU assembly (Microsoft x64: rbx rbp rsi rdi r12-r15 and xmm6-xmm15 callee-saved) ---- *)
+Theorem C07_asm_win_frames_ok : forallb win_ok asm_frames_win = true.
+Proof. vm_compute. reflexivity. Qed.
+
+Lemma C07_wrow_ok r : In r asm_frames_win -> win_ok r = true.
+Proof. intros H. pose proof C07_asm_win_frames_ok as A. rewrite forallb_forall in A. apply A. exact H. Qed.
+
+(* every callee-saved xmm register (xmm6-xmm15, also when written as ymm/zmm) that the body of a function writes is
+   saved in the prologue and reloaded from the same slot in the epilogue; the slots lie inside the frame, are pairwise
+   disjoint, and no store of the body overlaps one (decided on the translated rows): so on return every xmm register
+   holds the caller's value, provided the body writes no other xmm6-15 than the translator saw *)
+Theorem C07_asm_win_xmm_preserved : forall r, In r asm_frames_win -> forall (x0 x1 : xregs) (m0 m1 : slots),
+  (forall off, In off (map snd (w_saves r)) -> m1 off = do_saves x0 (w_saves r) m0 off) ->
+  (forall x, mem x (w_xwritten r) = false -> x1 x = x0 x) ->
+  forall x, do_restores x1 (w_restores r) m1 x = x0 x.
+Proof.
+  intros r Hr x0 x1 m0 m1 Hm Hx x. pose proof (C07_wrow_ok r Hr) as Hok. unfold win_ok in Hok.
+  repeat match type of Hok with (_ && _ = true) => let H := fresh "Hk" in apply andb_true_iff in Hok; destruct Hok as [Hok H] end.
+  eapply xmm_preserved; eassumption.
+Qed.
+
+(* and the general registers incl. rsi, rdi *)
+Theorem C07_asm_win_callee_saved_preserved : forall r, In r asm_frames_win -> forall (rg0 rg1 : regs) stack,
+  (forall x, mem x (w_gwritten r) = false -> rg1 x = rg0 x) ->
+  forall x, do_pops rg1 (w_pops r) (do_pushes rg0 (w_pushes r) stack) x = rg0 x.
+Proof.
+  intros r Hr rg0 rg1 stack Hb x. pose proof (C07_wrow_ok r Hr) as Hok. unfold win_ok in Hok.
+  repeat match type of Hok with (_ && _ = true) => let H := fresh "Hk" in apply andb_true_iff in Hok; destruct Hok as [Hok H] end.
+  eapply callee_saved_preserved; eassumption.
+Qed.
+
+(* the save slots and the body's stack stores stay inside the frame *)
+Theorem C07_asm_win_slots_inside_frame : forall r, In r asm_frames_win ->
+  (forall s, In s (w_saves r) -> snd s + 16 <= w_frame r) /\
+  (forall st, In st (w_stores r) -> fst st + snd st <= w_frame r).
+Proof.
+  intros r Hr. pose proof (C07_wrow_ok r Hr) as Hok. unfold win_ok in Hok.
+  repeat match type of Hok with (_ && _ = true) => let H := fresh "Hk" in apply andb_true_iff in Hok; destruct Hok as [Hok H] end.
+  split.
+  - intros s Hs. match goal with H : forallb (fun s => snd s + 16 <=? _) _ = true |- _ => rewrite forallb_forall in H; specialize (H s Hs); apply N.leb_le in H; exact H end.
+  - intros st Hs. match goal with H : forallb (fun st => (fst st + snd st <=? _) && _) _ = true |- _ =>
+      rewrite forallb_forall in H; specialize (H st Hs); apply andb_true_iff in H; destruct H as [H _]; apply N.leb_le in H; exact H end.
+Qed.
+
+Example C07_asm_win_nonvacuous :
+  length asm_frames_win = 10%nat /\
+  (exists r, In r asm_frames_win /\ w_frame r = 120 /\ length (w_saves r) = 7%nat /\ mem 14 (w_xwritten r) = true).
+Proof. split; [reflexivity|]. exists (nth 2 asm_frames_win ([], false, 0, [], [], [], [], [], [], [])). vm_compute. repeat split; auto. Qed.
+
 (* non-vacuity: eleven functions were translated; blake3_hash_many_sse41 has a 360-byte realigned frame whose highest
    access ends at byte 352 and saves all six registers *)
 Example C07_asm_nonvacuous :
@@ -116,5 +165,10 @@ Print Assumptions C07_asm_frames_ok.
 Print Assumptions C07_row_ok.
 Print Assumptions C07_asm_stack_accesses_inside_frame.
 Print Assumptions C07_asm_callee_saved_preserved.
+Print Assumptions C07_asm_win_frames_ok.
+Print Assumptions C07_wrow_ok.
+Print Assumptions C07_asm_win_xmm_preserved.
+Print Assumptions C07_asm_win_callee_saved_preserved.
+Print Assumptions C07_asm_win_slots_inside_frame.
 Print Assumptions C07_xof_many_footprint.
 Print Assumptions C07_fill_footprint.
